@@ -19,6 +19,18 @@
 //! of the harness). The runs are
 //! summarised on stderr as `RUNINFO <line> …` (used by the check to count non-trivial cases).
 //!
+//! `arun` requests tie the evaluator the C03 THEOREMS are about (`Model/AnalysisEval.lean` instantiated
+//! with `evalPrims`, `Model/AnalysisPrims.lean`) to the real runtime:
+//! ```text
+//! arun <hex src> plan=<stmt ids|->;<fn ids|-> | plan=none ast=<annotated AST …> facts=<facts text>
+//!   -> arun plan=<the real plan> plain.out=<hex of Display text per printed value,…|none|*> plain.end=<ok|rt:<Kind>|panic|abort:<sig>|hang>
+//!        pruned.out=<…> pruned.end=<…>
+//! ```
+//! The Rust side re-runs the front end on `<hex src>` and runs the real `Runtime` (process execution
+//! denied) without the plan (`plain`) and with the resolver's plan (`pruned`), each in a forked child —
+//! the same runs the differential oracle makes. `out=*` when the run ends in a panic / abort / hang
+//! (the output vector is lost). A source containing `read_line` is answered `arun skip`.
+//!
 //! Facts text (whitespace free; `_` = none; id lists `.`-separated, `-` when empty):
 //! ```text
 //! fn=<parent>,<defStmt>,<localsStart>,<localsLen>,<paramCount>,<definingScope>;…|lo=<owner>,<declScope>,<declStmt>,<p|v>;…
@@ -56,7 +68,7 @@ pub fn main(args: &[String]) -> i32 {
         Some("req") => req_main(&args[1..]),
         Some("show") => show_main(&args[1..]),
         _ => {
-            eprintln!("usage: nvh plan gen --seed S --n N | run | req (source lines on stdin → requests) | show (source on stdin)");
+            eprintln!("usage: nvh plan gen --seed S --n N | run | req [--arun] [--hex] (source lines on stdin → requests) | show (source on stdin)");
             2
         }
     }
@@ -200,6 +212,36 @@ pub fn request_for(src: &str) -> Option<String> {
     .ok()
 }
 
+fn plan_text(plan: Option<&naijascript::analysis::opt::OptimizationPlan<'_>>, facts: &ProgramFacts<'_, '_>) -> String {
+    match plan {
+        None => "none".to_string(),
+        Some(p) => {
+            let n = facts.stmt_effects.len() as u32;
+            let nf = facts.functions.len() as u32;
+            format!(
+                "{};{}",
+                ids((0..n).filter(|i| p.contains_removable_stmt(StmtId(*i)))),
+                ids((0..nf).filter(|i| p.contains_removable_function_def(FunctionId(*i))))
+            )
+        }
+    }
+}
+
+/// The `arun` request line for `src`: as `request_for`, plus the resolver's real plan.
+pub fn arun_request_for(src: &str) -> Option<String> {
+    let arena = Arena::new(crate::pipeline::ARENA_CAP).unwrap();
+    with_accepted(src, &arena, |root, r| {
+        format!(
+            "arun {} plan={} ast={} facts={}",
+            util::hex(src.as_bytes()),
+            plan_text(r.optimization_plan.as_ref(), &r.facts),
+            astio::program(&Opts { spans: true, facts: Some(&r.facts) }, root),
+            facts_text(&r.facts)
+        )
+    })
+    .ok()
+}
+
 // ------------------------------------------------------------------------------------------------
 // the real analyses
 
@@ -296,9 +338,46 @@ pub struct RunResult {
     pub ending: String,
 }
 
+/// How the `arun` line names a runtime error (the names of `Eval.RtKind`, as in family `run`).
+fn kind_name(message: &str) -> &'static str {
+    match message {
+        "I/O error" => "Io",
+        "Division by zero" => "DivisionByZero",
+        "Stack overflow" => "StackOverflow",
+        "Index out of bounds" => "IndexOutOfBounds",
+        "Type mismatch" => "TypeMismatch",
+        "Invalid index" => "InvalidIndex",
+        "Undefined variable" => "UndefinedVariable",
+        "Unsupported process execution" => "ProcessUnsupported",
+        "Process execution denied" => "ProcessDenied",
+        "Process spawn failed" => "ProcessSpawnFailed",
+        "Process timeout" => "ProcessTimeout",
+        "Process output limit exceeded" => "ProcessOutputLimitExceeded",
+        "Process output no be valid UTF-8" => "ProcessInvalidUtf8",
+        "Invalid process configuration" => "ProcessSpecInvalid",
+        _ => "Unknown",
+    }
+}
+
 impl RunResult {
     fn exhausted(&self) -> bool {
         self.ending == "rt:Stack overflow"
+    }
+    /// `<tag>.out=… <tag>.end=…` of an `arun` answer. `outputs` must come from `DisplayHex` runs.
+    fn arun_part(&self, tag: &str) -> String {
+        let end = match self.ending.strip_prefix("rt:") {
+            Some(m) => format!("rt:{}", kind_name(m)),
+            None => self.ending.clone(),
+        };
+        let lost = !(end == "ok" || end.starts_with("rt:"));
+        let out = if lost {
+            "*".to_string()
+        } else if self.outputs.is_empty() {
+            "none".to_string()
+        } else {
+            self.outputs.join(",")
+        };
+        format!("{tag}.out={out} {tag}.end={end}")
     }
     fn brief(&self) -> String {
         let mut o = self.outputs.join("|");
@@ -325,8 +404,21 @@ fn value_text(v: &naijascript::runtime::Value<'_>) -> String {
     format!("{tag}:{v}")
 }
 
+/// How a run is set up and its printed values are rendered.
+#[derive(Clone, Copy, PartialEq, Eq)]
+pub enum RunMode {
+    /// the differential oracle: default host policy, values as `<tag>:<text>` / number bits
+    Oracle,
+    /// `arun`: process execution denied, values as hex of their `Display` text (what family `run` compares)
+    DisplayHex,
+}
+
 /// Run the real runtime on a freshly resolved copy of `src`, with the resolver's plan or without.
 pub fn run_once(src: &str, with_plan: bool) -> RunResult {
+    run_once_mode(src, with_plan, RunMode::Oracle)
+}
+
+pub fn run_once_mode(src: &str, with_plan: bool, mode: RunMode) -> RunResult {
     let use_frame = std::env::var("NV_PLAN_FRAME").is_ok();
     let src = src.to_string();
     let r = util::catch(move || {
@@ -345,7 +437,18 @@ pub fn run_once(src: &str, with_plan: bool) -> RunResult {
             return RunResult { outputs: vec![], ending: "rejected".into() };
         }
         let (facts, plan) = resolver.into_artifacts();
-        let mut rt = if use_frame { Runtime::new(&arena, Some(&frame)) } else { Runtime::new(&arena, None) };
+        let fr = if use_frame { Some(&frame) } else { None };
+        let mut rt = match mode {
+            RunMode::Oracle => Runtime::new(&arena, fr),
+            RunMode::DisplayHex => Runtime::new_with_host_policy(
+                &arena,
+                fr,
+                naijascript::process::HostPolicy {
+                    allow_process: false,
+                    process: naijascript::process::ProcessCaps::defaults(),
+                },
+            ),
+        };
         let plan_ref = if with_plan { plan.as_ref() } else { None };
         let mut outputs = Vec::new();
         let ending;
@@ -357,7 +460,10 @@ pub fn run_once(src: &str, with_plan: bool) -> RunResult {
             };
         }
         for v in &rt.output {
-            outputs.push(value_text(v));
+            outputs.push(match mode {
+                RunMode::Oracle => value_text(v),
+                RunMode::DisplayHex => util::hex(format!("{v}").as_bytes()),
+            });
         }
         RunResult { outputs, ending }
     });
@@ -424,8 +530,12 @@ fn in_child(timeout_secs: u64, f: impl FnOnce() -> String) -> Result<String, Str
 }
 
 fn run_isolated(src: &str, with_plan: bool, timeout_secs: u64) -> RunResult {
+    run_isolated_mode(src, with_plan, timeout_secs, RunMode::Oracle)
+}
+
+fn run_isolated_mode(src: &str, with_plan: bool, timeout_secs: u64, mode: RunMode) -> RunResult {
     let r = in_child(timeout_secs, || {
-        let r = run_once(src, with_plan);
+        let r = run_once_mode(src, with_plan, mode);
         let mut s = r.ending.clone();
         for o in &r.outputs {
             s.push('\n');
@@ -549,6 +659,10 @@ fn run_main(args: &[String]) -> i32 {
                 }
                 a
             }
+            ["arun", hexsrc, ..] => match util::unhex(hexsrc).and_then(|b| String::from_utf8(b).ok()) {
+                None => "arun malformed:src".to_string(),
+                Some(text) => arun_answer(&text, timeout),
+            },
             _ => "bad-op".to_string(),
         };
         out.line(&ans);
@@ -557,14 +671,47 @@ fn run_main(args: &[String]) -> i32 {
     0
 }
 
-/// `nvh plan req`: each stdin line is a program's source text (one line); prints its request line
-/// (or `rejected`).
-fn req_main(_args: &[String]) -> i32 {
+/// The answer to an `arun` request: the real runtime without and with the resolver's plan.
+fn arun_answer(text: &str, timeout: u64) -> String {
+    if text.contains("read_line") {
+        return "arun skip".to_string();
+    }
+    let t2 = text.to_string();
+    let plan = util::catch(move || {
+        let arena = Arena::new(crate::pipeline::ARENA_CAP).unwrap();
+        with_accepted(&t2, &arena, |_root, r| plan_text(r.optimization_plan.as_ref(), &r.facts))
+    });
+    let plan = match plan {
+        Ok(Ok(p)) => p,
+        Ok(Err(_)) => return "arun rejected".to_string(),
+        Err(_) => return "arun front-end-panic".to_string(),
+    };
+    let plain = run_isolated_mode(text, false, timeout, RunMode::DisplayHex);
+    let pruned = run_isolated_mode(text, true, timeout, RunMode::DisplayHex);
+    format!("arun plan={} {} {}", plan, plain.arun_part("plain"), pruned.arun_part("pruned"))
+}
+
+/// `nvh plan req [--arun] [--hex]`: each stdin line is a program's source text (one line; with `--hex`
+/// the hex of a source text, which may then contain line breaks and comments); prints its `plan` (with
+/// `--arun`: its `arun`) request line (or `rejected`).
+fn req_main(args: &[String]) -> i32 {
     util::silence_panics();
+    let arun = util::flag(args, "--arun");
+    let hex = util::flag(args, "--hex");
     let mut out = util::Out::new();
     for line in util::stdin_lines() {
-        let l = line.clone();
-        match util::catch(move || request_for(&l)) {
+        let l = if hex {
+            match util::unhex(line.trim()).and_then(|b| String::from_utf8(b).ok()) {
+                Some(t) => t,
+                None => {
+                    out.line("rejected-bad-hex");
+                    continue;
+                }
+            }
+        } else {
+            line.clone()
+        };
+        match util::catch(move || if arun { arun_request_for(&l) } else { request_for(&l) }) {
             Ok(Some(r)) => out.line(&r),
             Ok(None) => out.line("rejected"),
             Err(_) => out.line("rejected-panic"),
@@ -616,6 +763,7 @@ fn gen_main(args: &[String]) -> i32 {
         let src = match attempts % 16 {
             5 => plangen::hoisted_after_dead(&mut rng),
             11 => plangen::many_locals(&mut rng),
+            8 | 14 => plangen::scc_capture(&mut rng),
             _ => plangen::program(&mut rng, size as usize),
         };
         let s2 = src.clone();
